@@ -439,9 +439,19 @@ func packetAdaptationFieldSize(af *PacketAdaptationField) (size int) {
 		size += 1 + packetAdaptationFieldExtensionSize(af.AdaptationExtensionField)
 	}
 	if af.StuffingLength > 0 {
-		size += af.StuffingLength
+		size += clampFieldSize(af.StuffingLength)
 	}
 	return
+}
+
+// clampFieldSize bounds a size given by the caller to a value that is still more than any packet holds, so that the
+// sizes that are added up can't wrap around to a small sum
+func clampFieldSize(size int) int {
+	const max = 1 << 16
+	if size > max {
+		return max
+	}
+	return size
 }
 
 func calcPacketAdaptationFieldLength(af *PacketAdaptationField) (length uint8) {
@@ -562,7 +572,7 @@ func packetAdaptationFieldExtensionSize(afe *PacketAdaptationExtensionField) (si
 		size += ptsOrDTSByteLength
 	}
 	if afe.ReservedLength > 0 {
-		size += afe.ReservedLength
+		size += clampFieldSize(afe.ReservedLength)
 	}
 	return
 }
